@@ -354,7 +354,8 @@ class Run:
         for _ in range(n_trees):
             cat = rng.choice(sy.cats)
             t = gen_tree(sy, rng, cat, rng.between(1, 5))
-            if rng.chance(0.15):
+            zeros = rng.chance(0.25)
+            if zeros:
                 t = zero_params(sy, rng, t)
             variants = [("same", t)]
             for _k in range(3):
@@ -372,7 +373,7 @@ class Run:
                     slot += 1
                 self.groups.append(grp)
                 # cached signature, then cse() (must keep or refresh it)
-                if rng.chance(0.5):
+                if zeros or rng.chance(0.5):
                     self.do("mep sig %d" % grp[0], "i_mep", "signature")
                     self.do("mep cse %d %d" % (999, grp[0]), "i_mep", "cse")
         return slot
@@ -515,8 +516,12 @@ class Run:
                 elif op == "loadbad":
                     self.do("team loadbad %d %d %d" % (d, s, rng.between(1, 1000)), "team", "load_fail")
                 else:
-                    ms = [rng.below(NS) for _ in range(3)]   # slots 0..NS-1 keep the standard size
+                    ms = [rng.below(NM) for _ in range(3)]   # slots 0..NM-1 keep the standard size
                     self.do("team fromvec %d %s" % (d, " ".join(str(x) for x in ms)), "team", "ctor_vector")
+                    if rng.chance(0.5):   # the same members in another order: a different team
+                        ms2 = ms[1:] + ms[:1] if rng.chance(0.5) else [ms[1], ms[0], ms[2]]
+                        self.do("team fromvec %d %s" % (b, " ".join(str(x) for x in ms2)), "team", "ctor_vector")
+                        self.chk.count("engineered:team_permutation")
 
     def upd(self, kind, slot, r):
         c = r["content"]
@@ -615,6 +620,8 @@ def shrink(exe, problem, hseed, lines, tags, budget=60):
 def replay_run(chk, exe, rp):
     """re-run the request lines of a replay file and re-apply the freshness oracle"""
     r = rp["replay"]
+    if "lines" not in r:
+        return replay_pair(chk, exe, r)
     s = Session(exe, r["problem"], r["harness_seed"])
     try:
         for l in r["lines"]:
@@ -624,6 +631,51 @@ def replay_run(chk, exe, rp):
                 chk.violation("replay: after `%s` signature() = %s, from scratch = %s, is_valid = %s" %
                               (l, pa["sig"], pa["fresh"], pa["valid"]), r, tags=r.get("tags", {}))
                 break
+    except Dead as e:
+        chk.violation("replay: " + str(e), r, tags={"kind": "died"})
+    finally:
+        s.close()
+
+
+def content_to_lines(content, slot0):
+    """harness requests that rebuild a serialised object (mep / team of meps) in slot `slot0`"""
+    if content.startswith("mep "):
+        t = content.split()
+        return ["mep build %d %s" % (slot0, " ".join(t[1:]))], "mep"
+    if content.startswith("team "):
+        parts = [p.strip() for p in content.split(" ; ")]
+        lines, slots = [], []
+        for i, p in enumerate(parts[1:]):
+            lines.append("mep build %d %s" % (slot0 + 1 + i, " ".join(p.split()[1:])))
+            slots.append(slot0 + 1 + i)
+        lines.append("team fromvec %d %s" % (slot0, " ".join(str(x) for x in slots)))
+        return lines, "team"
+    return None, None
+
+
+def replay_pair(chk, exe, r):
+    """replay of a factorisation violation: two serialised objects, their packed streams (Lean)
+    and their from-scratch signatures (C++) are recomputed and compared again"""
+    s = Session(exe, r["problem"], 1)
+    try:
+        sy = Syms(s.ask("symtab"))
+        res = []
+        for k, key in enumerate(("a", "b")):
+            lines, kind = content_to_lines(r[key], 100 * (k + 1))
+            if lines is None:
+                chk.notes.append("replay: cannot rebuild `%s`" % r[key][:80])
+                return
+            a = ""
+            for l in lines:
+                a = s.ask(l)
+            res.append(parse_answer(a))
+        ans = C.run_driver("c03_driver", list(sy.lines) + [x["content"] for x in res])
+        st = [ans[len(sy.lines) + i].split()[1] for i in range(2)]
+        same_stream, same_sig = st[0] == st[1], res[0]["fresh"] == res[1]["fresh"]
+        if same_stream != same_sig:
+            chk.violation("replay: packed streams %s, signatures %s for `%s` and `%s`" %
+                          ("equal" if same_stream else "differ", "equal" if same_sig else "differ",
+                           r["a"][:300], r["b"][:300]), r, tags=r.get("tags", {}))
     except Dead as e:
         chk.violation("replay: " + str(e), r, tags={"kind": "died"})
     finally:
@@ -678,9 +730,9 @@ def run(chk, replay=None):
     for problem in (1, 2):
         r = Run(chk, exe, problem, rng)
         try:
-            r.engineered(60 if quick else 600)
+            r.engineered(150 if quick else 1500)
             r.run_groups()
-            r.history(1500 if quick else 20000)
+            r.history(4000 if quick else 40000)
             mlines, manswers = r.murmur(10 if quick else 200) if problem == 1 else ([], [])
         except Dead as e:
             chk.violation(str(e), {"problem": problem, "harness_seed": r.s.seed, "lines": r.s.log[1:]},
@@ -710,18 +762,22 @@ def run(chk, replay=None):
             if st in smap:
                 if smap[st][1] != content:
                     n_pairs_equal += 1
-                if smap[st][0] != fresh:
+                if smap[st][0] != fresh and chk.__dict__.setdefault("_c03_nf", 0) < 2:
+                    chk._c03_nf += 1
                     chk.violation("same active program, different signatures: `%s` -> %s and `%s` -> %s (packed stream %s)"
                                   % (smap[st][1][:400], smap[st][0], content[:400], fresh, a[1][:200]),
-                                  {"problem": problem, "a": smap[st][1], "b": content, "stream": a[1]},
+                                  {"problem": problem, "a": smap[st][1], "b": content, "stream": a[1],
+                                   "tags": {"kind": "not-a-function", "cls": kind}},
                                   tags={"kind": "not-a-function", "cls": kind})
             else:
                 smap[st] = (fresh, content)
                 n_streams += 1
-            if fresh in gmap and gmap[fresh][0] != st:
+            if fresh in gmap and gmap[fresh][0] != st and chk.__dict__.setdefault("_c03_ni", 0) < 2:
+                chk._c03_ni += 1
                 chk.violation("different active programs, same signature %s: `%s` and `%s`"
                               % (fresh, gmap[fresh][1][:400], content[:400]),
-                              {"problem": problem, "a": gmap[fresh][1], "b": content, "streams": [gmap[fresh][0], st]},
+                              {"problem": problem, "a": gmap[fresh][1], "b": content, "streams": [gmap[fresh][0], st],
+                               "tags": {"kind": "not-injective", "cls": kind}},
                               tags={"kind": "not-injective", "cls": kind})
             gmap.setdefault(fresh, (st, content))
             if j % 997 == 0:
